@@ -23,6 +23,40 @@ func lessOf[T any](ref func(a, b T) int) fp.LessFunc[T] {
 	return func(a, b T) bool { return ref(a, b) < 0 }
 }
 
+// magOrd is an element order whose Compare returns magnitudes other than -1/0/+1: ord.FromCompare and
+// fp.CompareFunc pass the user comparator's result through, and only its sign is meaningful (the way
+// time.Time.Compare, strings.Compare or cmp.Compare based comparators are commonly written: `a.n - b.n`).
+// Every combinator must still order its composite lexicographically when built over such an element order.
+// Components stay in -6..11, so 5*(a-b) cannot overflow.
+func magOrd() fp.Ord[int] {
+	return ord.FromCompare(func(a, b int) int { return 5 * (a - b) })
+}
+
+// TestOrdOverMagnitude: the combinators over magOrd (added after an independently seeded change that made
+// ord.Seq switch on Compare's result being exactly -1 or +1).
+func TestOrdOverMagnitude(t *testing.T) {
+	dInt := domInt(false)
+	gm := magOrd()
+	runLaws(t, mk("ord.Seq(FromCompare-magnitude)", ord.Seq(gm), domSliceOf[int, fp.Seq[int]](dInt, 5)))
+	runLaws(t, mk("ord.Slice(FromCompare-magnitude)", ord.Slice(gm), domSliceOf[int, []int](dInt, 5)))
+	runLaws(t, mk("ord.Option(FromCompare-magnitude)", ord.Option(gm), domOpt(dInt)))
+	runLaws(t, mk("ord.Seq(Option(FromCompare-magnitude))", ord.Seq(ord.Option(gm)), domSliceOf[fp.Option[int], fp.Seq[fp.Option[int]]](domOpt(dInt), 4)))
+	runLaws(t, mk("ord.Ptr(FromCompare-magnitude)", ord.Ptr(lazy.Done(gm)), domPtr(dInt)))
+	runLaws(t, mk("ord.HCons(FromCompare-magnitude x3)", ord.HCons(gm, ord.HCons(gm, ord.HCons(gm, ord.HNil))), domFixed(3,
+		func(s []int) hl3 { return hlist.Of3(s[0], s[1], s[2]) },
+		func(h hl3) []int {
+			return []int{h.Head(), hlist.Tail(h).Head(), hlist.Tail(hlist.Tail(h)).Head()}
+		})))
+	dKV := domKV()
+	runLaws(t, mk("ord.ContraMap(FromCompare-magnitude,key)", ord.ContraMap(gm, kv.Key), dKV))
+	runLaws(t, mk("ord.Seq(FromCompare-magnitude.Reversed)", ord.Seq(gm.Reversed()), func() dom[fp.Seq[int]] {
+		d := domSliceOf[int, fp.Seq[int]](dInt.withRef(negRef(dInt.ref), ""), 5)
+		return d
+	}()))
+	dSeq := domSliceOf[int, fp.Seq[int]](dInt, 5)
+	runLaws(t, mk("ord.Seq(FromCompare-magnitude).Reversed", ord.Seq(gm).Reversed(), dSeq.withRef(negRef(dSeq.ref), "")))
+}
+
 func TestOrd(t *testing.T) {
 	dInt, dIntE, dStr := domInt(false), domInt(true), domString()
 	gi := ord.Given[int]()
